@@ -5,7 +5,7 @@ From Coq Require Import NArith List Bool.
 Import ListNotations.
 From Coq Require Import ZArith.
 From CXV Require Import Gen.TokTy Gen.ParserTables Parse.Balanced Gen.Blocks Parse.BlocksSM.
-From CXV Require Import Base.Regex Base.Cost Gen.LexRules Lex.PlyLoop Gen.StreamTables Stream.TokBuf Fmt.TokFmt PP.Filters Misc.ReprModel Gen.Schema Parse.Fold Parse.Declarator Parse.DeclSpec Parse.EnumList Parse.BaseClause Parse.NsHeader Parse.Specs Parse.VarStmt Parse.FnTail Parse.Init Parse.Members Parse.MethodTail Parse.Template Parse.PQName Parse.Using Parse.EnumDecl Parse.ClassEnum Parse.TemplateArg.
+From CXV Require Import Base.Regex Base.Cost Gen.LexRules Lex.PlyLoop Gen.StreamTables Stream.TokBuf Fmt.TokFmt PP.Filters Misc.ReprModel Gen.Schema Parse.Fold Parse.Declarator Parse.DeclSpec Parse.EnumList Parse.BaseClause Parse.NsHeader Parse.Specs Parse.VarStmt Parse.FnTail Parse.Init Parse.Members Parse.MethodTail Parse.Template Parse.PQName Parse.Using Parse.EnumDecl Parse.ClassEnum Parse.TemplateArg Parse.CtorDtor.
 Open Scope N_scope.
 
 Definition nlen {A} (l : list A) : N := N.of_nat (length l).
@@ -673,8 +673,35 @@ Definition run_tspec (args : list N) : list N :=
   | DErr e => [1; e]
   end.
 
+(* 102: constructor / destructor detection: in_class, is_friend, is_type, class name, segment count, segments;
+   a name is 0 (no name attribute) | 1 tilde id.  Output: 0, 0 none | 1 constructor | 2 destructor *)
+Fixpoint dec_snames (n : nat) (l : list N) : list seg_name * list N :=
+  match n with
+  | O => ([], l)
+  | S n' =>
+      match l with
+      | 0 :: r => let '(q, r') := dec_snames n' r in (None :: q, r')
+      | _ :: t :: i :: r => let '(q, r') := dec_snames n' r in (Some (negb (t =? 0), i) :: q, r')
+      | _ => ([], l)
+      end
+  end.
+Definition run_ctor_dtor (args : list N) : list N :=
+  match args with
+  | ic :: fr :: ty :: r =>
+      let b x := negb (x =? 0) in
+      let '(cls, r1) := dec_snames 1 r in
+      match r1 with
+      | n :: r2 =>
+          let '(segs, _) := dec_snames (N.to_nat n) r2 in
+          [0; match ctor_dtor (b ic) (b fr) (b ty) (hd None cls) segs with CDNone => 0 | CDCtor => 1 | CDDtor => 2 end]
+      | [] => [1; 0]
+      end
+  | _ => [1; 0]
+  end.
+
 Definition run_case (cmd : N) (args : list N) : list N :=
   match cmd, args with
+  | 102, _ => run_ctor_dtor args
   | 101, _ => run_tspec args
   | 100, _ => run_class_enum args
   | 99, _ => run_enum_decl args
